@@ -15,6 +15,8 @@
 (*  S5  (P).s       =  P | s             parentheses / pipe end projection *)
 (*  S6  [e1, e2]    =  concatenation of [e1] and [e2]   (non-null current) *)
 (*  S7  {k: e}.k    =  e                                (non-null current) *)
+(*  S8  b[n]        =  b | [n]  =  (b)[n]         for index literals n of  *)
+(*                                                 every integer width     *)
 (***************************************************************************)
 EXTENDS JMES, Json, DocsCore, Toks, SequencesExt
 
@@ -43,6 +45,8 @@ DotRhsPool == { <<Id(<<97>>)>>, <<Id(<<98>>)>>, <<Id(<<97>>), LB, IntT(<<48>>), 
 Es == { <<Id(<<97>>)>>, <<Id(<<98>>)>>, <<Id(<<97>>), Dot, Id(<<98>>)>>, <<Id(<<97>>), LB, IntT(<<48>>), RB>>, <<CurT>>,
         <<Id(<<97>>), LB, Star, RB>>, <<Json(<<96,49,96>>)>>, <<Id(<<97>>), OrT, Id(<<98>>)>> }
 
+IdxLits == { <<48>>, <<49>>, <<45,49>>, <<50>>, <<45,50>>, <<49,50,55>>, <<49,50,56>>, <<45,49,50,56>>, <<45,49,50,57>>, <<50,53,53>>, <<50,53,54>>, <<45,50,53,53>>, <<45,50,53,54>>, <<51,50,55,54,55>>, <<51,50,55,54,56>>,
+             <<54,53,53,51,53>>, <<54,53,53,51,54>>, <<50,49,52,55,52,56,51,54,52,55>>, <<50,49,52,55,52,56,51,54,52,56>>, <<45,50,49,52,55,52,56,51,54,52,57>>, <<52,50,57,52,57,54,55,50,57,54>>, <<48,49,48>>, <<45,48,49>> }
 I(s, l, r) == [s |-> s, l |-> l, r |-> r]
 Instances ==
      { I("S1", b \o p \o s, b \o p \o <<PipeT, LB, Star, RB>> \o s) : b \in Bases, p \in Projs, s \in Sels }
@@ -52,6 +56,12 @@ Instances ==
   \cup { I("S5", <<LP>> \o b \o p \o <<RP>> \o s, b \o p \o <<PipeT>> \o (IF Head(s).k = "dot" THEN Tail(s) ELSE s)) :
            b \in Bases, p \in Projs, s \in Sel1 }
   \cup { I("S7", <<LBr, Id(<<107>>), Colon>> \o e \o <<RBr, Dot, Id(<<107>>)>>, e) : e \in Es }
+  \* S8: b[n] = b | [n] = (b)[n]  -- the index literal means the same attached,
+  \* bare after a pipe, and after parentheses, for every magnitude
+  \* (b not a projection; a parenthesised projection is finished, so the index applies to its result)
+  \cup { I("S8", b \o <<LB, IntT(n), RB>>, b \o <<PipeT, LB, IntT(n), RB>>) : b \in Bases, n \in IdxLits }
+  \cup { I("S8", <<LP>> \o b \o <<RP, LB, IntT(n), RB>>, b \o <<PipeT, LB, IntT(n), RB>>) :
+           b \in Bases \cup {bb \o pp : bb \in Bases, pp \in Projs}, n \in IdxLits }
 
 InstSeq == SetToSeq(Instances)     \* [s |-> schema, l |-> lhs tokens, r |-> rhs tokens]
 inst == InstSeq[idx]
